@@ -158,6 +158,41 @@ struct Script {
 	delay_us: Vec<u64>,
 	retain: Vec<bool>,
 	empty_out: Vec<bool>,
+	/// where the operator's input comes from. 0: a ready vector / an exactly sized coordinate iterator;
+	/// 1: a source that is Pending before every item and before its end (a reader doing I/O) / a filtered
+	/// coordinate iterator (size hint 0..n); 2: the output of another parallel operator (stacked stages) /
+	/// a flat-mapped coordinate iterator (lazily chained boxes)
+	feed: u8,
+}
+
+/// a source that yields to the scheduler before every item and before its end
+fn slow_source(items: Vec<(TileCoord3, Blob)>) -> TileStream<'static> {
+	use futures::StreamExt;
+	let mut it = items.into_iter();
+	let mut ready = false;
+	TileStream::from_stream(
+		futures::stream::poll_fn(move |cx| {
+			if !ready {
+				ready = true;
+				cx.waker().wake_by_ref();
+				return std::task::Poll::Pending;
+			}
+			ready = false;
+			std::task::Poll::Ready(it.next())
+		})
+		.boxed(),
+	)
+}
+
+fn feed_stream(feed: u8, items: Vec<(TileCoord3, Blob)>) -> TileStream<'static> {
+	match feed {
+		1 => slow_source(items),
+		2 => {
+			let cs: Vec<TileCoord3> = items.iter().map(|(c, _)| *c).collect();
+			TileStream::from_coord_iter_parallel(cs.into_iter(), |c| Some(input_blob(&c)))
+		}
+		_ => TileStream::from_vec(items),
+	}
 }
 
 struct Outcome {
@@ -206,7 +241,7 @@ fn execute(op: OpKind, cs: &[TileCoord3], script: &Script, workers: usize) -> Ou
 			OpKind::Map => {
 				let index = index.clone();
 				let body = body.clone();
-				TileStream::from_vec(items)
+				feed_stream(script.feed, items)
 					.map_blob_parallel(move |b| {
 						let i = index[b.as_slice()];
 						body(i, b.as_str().to_string()).unwrap_or_else(Blob::new_empty)
@@ -217,7 +252,7 @@ fn execute(op: OpKind, cs: &[TileCoord3], script: &Script, workers: usize) -> Ou
 			OpKind::FilterMap => {
 				let index = index.clone();
 				let body = body.clone();
-				TileStream::from_vec(items)
+				feed_stream(script.feed, items)
 					.filter_map_blob_parallel(move |b| {
 						let i = index[b.as_slice()];
 						body(i, b.as_str().to_string())
@@ -228,12 +263,19 @@ fn execute(op: OpKind, cs: &[TileCoord3], script: &Script, workers: usize) -> Ou
 			OpKind::FromCoords => {
 				let cindex = cindex.clone();
 				let body = body.clone();
-				TileStream::from_coord_iter_parallel(cs.to_vec().into_iter(), move |c| {
+				let f = move |c: TileCoord3| {
 					let i = cindex[&c];
 					body(i, format!("in:{}/{}/{}", c.z, c.x, c.y))
-				})
-				.collect()
-				.await
+				};
+				let all = cs.to_vec();
+				match script.feed {
+					1 => TileStream::from_coord_iter_parallel(all.into_iter().filter(|c| c.z < 99), f).collect().await,
+					2 => {
+						let chunks: Vec<Vec<TileCoord3>> = all.chunks(3).map(|c| c.to_vec()).collect();
+						TileStream::from_coord_iter_parallel(chunks.into_iter().flat_map(|v| v.into_iter()), f).collect().await
+					}
+					_ => TileStream::from_coord_iter_parallel(all.into_iter(), f).collect().await,
+				}
 			}
 		}
 	};
@@ -264,7 +306,7 @@ fn check_outcome(rep: &mut Report, op: OpKind, cs: &[TileCoord3], script: &Scrip
 	let opn = format!("{op:?}");
 	let witness = |out: &Outcome| {
 		json!({
-			"operator": opn, "schedule": what, "n": cs.len(),
+			"operator": opn, "schedule": what, "n": cs.len(), "feed": script.feed,
 			"completion_order": out.completion_order.iter().take(12).collect::<Vec<_>>(),
 			"output": out.output.iter().take(12).map(|(c, b)| format!("{}/{}/{} -> {}", c.z, c.x, c.y, String::from_utf8_lossy(b.as_slice()))).collect::<Vec<_>>(),
 			"retain": script.retain.iter().take(12).collect::<Vec<_>>(),
@@ -342,6 +384,7 @@ fn exhaustive(cx: &CaseCtx, rep: &mut Report) {
 					delay_us: vec![0; n],
 					retain: (0..n).map(|i| mask & (1 << i) != 0).collect(),
 					empty_out: (0..n).map(|i| empties & (1 << i) != 0).collect(),
+					feed: 0,
 				};
 				let r = guard::catch(|| execute(op, &cs, &script, 8));
 				rep.eval();
@@ -403,7 +446,9 @@ fn adversarial(cx: &CaseCtx, rep: &mut Report) {
 		.collect();
 	let retain: Vec<bool> = (0..n).map(|_| op == OpKind::Map || rng.chance(0.7)).collect();
 	let empty_out: Vec<bool> = (0..n).map(|_| rng.chance(0.1)).collect();
-	let script = Script { rank: vec![None; n], delay_us, retain, empty_out };
+	let feed = rng.below(3) as u8;
+	rep.count(&format!("adversarial_runs_feed_{feed}"), 1);
+	let script = Script { rank: vec![None; n], delay_us, retain, empty_out, feed };
 	let r = guard::catch(|| execute(op, &cs, &script, workers));
 	rep.eval();
 	match r {
@@ -423,12 +468,14 @@ fn adversarial(cx: &CaseCtx, rep: &mut Report) {
 	}
 	// the same operators on a current-thread runtime (tasks run one after the other)
 	if n <= 1000 {
-		let script2 = Script { rank: vec![None; n], delay_us: vec![0; n], retain: script.retain.clone(), empty_out: script.empty_out.clone() };
-		match guard::catch(|| execute(op, &cs, &script2, 0)) {
-			Err(p) => rep.violation(&p.signature("tile_stream"), "stream operator panicked", json!({"operator": format!("{op:?}"), "n": n, "panic": p.describe()})),
-			Ok(out) => {
-				rep.eval();
-				check_outcome(rep, op, &cs, &script2, &out, "current-thread runtime");
+		for feed in 0..3u8 {
+			let script2 = Script { rank: vec![None; n], delay_us: vec![0; n], retain: script.retain.clone(), empty_out: script.empty_out.clone(), feed };
+			match guard::catch(|| execute(op, &cs, &script2, 0)) {
+				Err(p) => rep.violation(&p.signature("tile_stream"), "stream operator panicked", json!({"operator": format!("{op:?}"), "n": n, "feed": feed, "panic": p.describe()})),
+				Ok(out) => {
+					rep.eval();
+					check_outcome(rep, op, &cs, &script2, &out, &format!("current-thread runtime, feed {feed}"));
+				}
 			}
 		}
 	}
